@@ -832,6 +832,74 @@ def f():
         yield 2
     g = gen()
     return len(list(g)), len(list(g)), next(gen()), [v for v in gen()] + [v for v in gen()]
+---
+from collections import namedtuple as _namedtuple
+class _Segment(_namedtuple('_SegmentBase', 'x1 y1 x2 y2')):
+    __slots__ = ()
+    def length(self):
+        x1, y1, x2, y2 = self
+        return ((x2 - x1) ** 2 + (y2 - y1) ** 2) ** 0.5
+    def shifted(self, d):
+        return self._replace(x1=self.x1 + d, x2=self.x2 + d)
+class _Vertex(_namedtuple('_Vertex', 'x y')):
+    __slots__ = ()
+    @classmethod
+    def of(cls, pair):
+        return cls(pair[0], pair[1])
+def _area(ax, ay, bx, by):
+    return ax * by - ay * bx
+def f():
+    s = _Segment(0, 0, 3, 4)
+    t = s.shifted(1)
+    a, b = _Vertex.of((1, 2)), _Vertex.of([3, 5])
+    return (s.length(), s[2], len(s), tuple(s), list(t), t.x1, s == (0, 0, 3, 4), s == t, s < t, _area(*a, *b), repr(a), a._fields, a._asdict(), isinstance(s, tuple), hash(a) == hash((1, 2)),
+            {a: 1}[_Vertex(1, 2)], sorted([b, a])[0].x, max(a), bool(s))
+---
+def f():
+    comp = None
+    log = []
+    def restart():
+        nonlocal comp
+        comp = True
+    def accumulate(v):
+        nonlocal comp
+        comp = comp and v < 3
+        log.append(comp)
+    def fold(vs):
+        restart()
+        for v in vs:
+            accumulate(v)
+        return comp
+    a = fold([1, 2])
+    b = fold([1, 5, 2])
+    k = 10
+    def late():
+        return k
+    k = 20
+    return a, b, comp, log, late()
+---
+class Pt:
+    def __init__(self, x, y):
+        self.x = x
+        self.y = y
+class Seg:
+    def __init__(self, a, b):
+        self.a = a
+        self.b = b
+def kind(v):
+    match v:
+        case int():
+            return 'int'
+        case Pt(x=0, y=yy):
+            return 'on axis %s' % yy
+        case Pt() | Seg():
+            return 'geometry'
+        case list():
+            return 'list'
+        case _:
+            return 'other'
+def f():
+    return [kind(v) for v in (3, True, Pt(0, 5), Pt(1, 2), Seg(1, 2), [1], 'x', None)]
 '''
 
 
